@@ -347,6 +347,58 @@ impl C04 {
                 ctx.check(false, "lax::spider;spider/fusion-defined/value/fusion", || json!({"input": input()}));
             }
         }
+        // three spiders, composed right-nested through the lax representation without quotienting in between
+        // (the inner composite still carries its pending pairs when it becomes the right operand): a;(b;c) is the
+        // gluing of all three
+        {
+            let ty: Vec<u32> = t2.iter().map(|&i| w2[i]).collect();
+            // third cospan: half of the time a permutation-like pass-through (injective legs), else arbitrary
+            let (s3, t3, w3) = if r.chance(1, 2) {
+                let n = ty.len();
+                let p = r.perm(n);
+                let w3: Vec<u32> = { let mut w = vec![0u32; n]; for (i, &pi) in p.iter().enumerate() { w[pi] = ty[i]; } w };
+                (p, (0..n).collect::<Vec<usize>>(), w3)
+            } else {
+                cospan_with_source(r, &ty, 3, 4)
+            };
+            let c = POh::<u32, u64>::spider(s3.clone(), t3.clone(), w3.clone());
+            if let Some(want3) = want.compose(&c) {
+                let n3 = w3.len();
+                let inp = || json!({"a": [json!(s1), json!(t1), json!(w1)], "b": [json!(s2), json!(t2), json!(w2)], "c": [json!(s3), json!(t3), json!(w3)]});
+                let got = lib(ctx, "lax::a;(b;c)", "fusion", &inp, || {
+                    let x = L::spider(ff(s1.clone(), n1), ff(t1.clone(), n1), w1.clone())?;
+                    let y = L::spider(ff(s2.clone(), n2), ff(t2.clone(), n2), w2.clone())?;
+                    let z = L::spider(ff(s3.clone(), n3), ff(t3.clone(), n3), w3.clone())?;
+                    let inner = Arrow::compose(&y, &z)?;
+                    Arrow::compose(&x, &inner)
+                })
+                .flatten();
+                ctx.count("law:lax-right-nested-fusion");
+                match got {
+                    Some(g) => {
+                        if let Some(pl) = walk_lax(ctx, "lax::a;(b;c)", "fusion", &g, &inp) {
+                            match pl.strict() {
+                                Ok((p, _)) => {
+                                    if ctx.check(p.src_type() == want3.src_type() && p.tgt_type() == want3.tgt_type(), "lax::a;(b;c)/type/value/fusion", || json!({"input": inp(), "observed": show(&p)})) {
+                                        expect_iso(ctx, "lax::a;(b;c)", "fusion-is-cospan-composition", "fusion", &p, &want3, &inp);
+                                    }
+                                    // and the library's own quotient agrees with the model's
+                                    if let Some(ps) = lib(ctx, "to_strict", "fusion", &inp, || g.clone().to_strict()).and_then(|s| from_strict(&s).ok()) {
+                                        expect_iso(ctx, "lax::a;(b;c)", "library-quotient-is-cospan-composition", "fusion", &ps, &want3, &inp);
+                                    }
+                                }
+                                Err(_) => {
+                                    ctx.check(false, "lax::a;(b;c)/quotientable/value/fusion", || json!({"input": inp()}));
+                                }
+                            }
+                        }
+                    }
+                    None => {
+                        ctx.check(false, "lax::a;(b;c)/fusion-defined/value/fusion", || json!({"input": inp()}));
+                    }
+                }
+            }
+        }
         ctx.sample("fusion", || input());
     }
 
@@ -431,6 +483,7 @@ impl Monitor for C04 {
             ("class:fusion_empty_node_set", 5),
             ("class:contravariance_with_edges", 100),
             ("law:spider-fusion", 200),
+            ("law:lax-right-nested-fusion", 200),
             ("law:dagger-reverses-composition", 100),
             ("law:dagger-distributes-over-tensor", 100),
             ("law:dagger-involution", 100),
